@@ -186,3 +186,11 @@ func TestC15A_Gossip(t *testing.T) {
 		p.report(t, "C15/goroutine-leak/gossip", fmt.Sprintf("goroutines grew from %d to %d while validating gossip", g0, g1), nil)
 	}
 }
+
+func newTopic(n *fullNode, k topicKind) (string, error) {
+	tp, err := pubsubManager.NewTopic(n.pubsub.GetGenesis(), zoneLoc, k.datatype)
+	if err != nil {
+		return "", err
+	}
+	return tp.String(), nil
+}
